@@ -39,6 +39,94 @@ mod native_inst {
             pub fn $name<S: Src>(s: &mut S) -> Chk { $f::<S, $($n),*>(s) }
         };
     }
+    ninst!(r_find_n4 = ob_find<4>);
+    ninst!(r_find_n8 = ob_find<8>);
+    ninst!(r_find_n16 = ob_find<16>);
+    ninst!(r_find_n32 = ob_find<32>);
+    ninst!(r_find_n64 = ob_find<64>);
+    ninst!(r_find_unlawful_n4 = ob_find_unlawful<4>);
+    ninst!(r_find_unlawful_n8 = ob_find_unlawful<8>);
+    ninst!(r_find_unlawful_n16 = ob_find_unlawful<16>);
+    ninst!(r_find_unlawful_n32 = ob_find_unlawful<32>);
+    ninst!(r_find_unlawful_n64 = ob_find_unlawful<64>);
+    ninst!(r_find_insert_slot_n4 = ob_find_insert_slot<4>);
+    ninst!(r_find_insert_slot_n8 = ob_find_insert_slot<8>);
+    ninst!(r_find_insert_slot_n16 = ob_find_insert_slot<16>);
+    ninst!(r_find_insert_slot_n32 = ob_find_insert_slot<32>);
+    ninst!(r_find_insert_slot_n64 = ob_find_insert_slot<64>);
+    ninst!(r_find_or_insert_slot_n4 = ob_find_or_insert_slot<4>);
+    ninst!(r_find_or_insert_slot_n8 = ob_find_or_insert_slot<8>);
+    ninst!(r_find_or_insert_slot_n16 = ob_find_or_insert_slot<16>);
+    ninst!(r_find_or_insert_slot_n32 = ob_find_or_insert_slot<32>);
+    ninst!(r_find_or_insert_slot_n64 = ob_find_or_insert_slot<64>);
+    ninst!(r_insert_in_slot_n4 = ob_insert_in_slot<4>);
+    ninst!(r_insert_in_slot_n8 = ob_insert_in_slot<8>);
+    ninst!(r_insert_in_slot_n16 = ob_insert_in_slot<16>);
+    ninst!(r_insert_in_slot_n32 = ob_insert_in_slot<32>);
+    ninst!(r_insert_in_slot_n64 = ob_insert_in_slot<64>);
+    ninst!(r_remove_n4 = ob_remove<4>);
+    ninst!(r_remove_n8 = ob_remove<8>);
+    ninst!(r_remove_n16 = ob_remove<16>);
+    ninst!(r_remove_n32 = ob_remove<32>);
+    ninst!(r_remove_n64 = ob_remove<64>);
+    ninst!(r_insert_n4 = ob_insert<4, 8>);
+    ninst!(r_insert_n8 = ob_insert<8, 16>);
+    ninst!(r_insert_n16 = ob_insert<16, 32>);
+    ninst!(r_insert_n32 = ob_insert<32, 64>);
+    ninst!(r_resize_n4 = ob_resize<4, 8>);
+    ninst!(r_resize_n8 = ob_resize<8, 16>);
+    ninst!(r_resize_n16 = ob_resize<16, 32>);
+    ninst!(r_resize_n32 = ob_resize<32, 64>);
+    ninst!(r_rehash_in_place_n4 = ob_rehash_in_place<4>);
+    ninst!(r_rehash_in_place_n8 = ob_rehash_in_place<8>);
+    ninst!(r_rehash_in_place_n16 = ob_rehash_in_place<16>);
+    ninst!(r_rehash_in_place_n32 = ob_rehash_in_place<32>);
+    ninst!(r_rehash_in_place_n64 = ob_rehash_in_place<64>);
+    ninst!(r_iter_n4 = ob_iter<4>);
+    ninst!(r_iter_n8 = ob_iter<8>);
+    ninst!(r_iter_n16 = ob_iter<16>);
+    ninst!(r_iter_n32 = ob_iter<32>);
+    ninst!(r_iter_n64 = ob_iter<64>);
+    ninst!(r_set_algebra_n4 = ob_set_algebra<4>);
+    ninst!(r_set_algebra_n8 = ob_set_algebra<8>);
+    ninst!(r_set_algebra_n16 = ob_set_algebra<16>);
+    ninst!(r_set_algebra_n32 = ob_set_algebra<32>);
+    ninst!(r_set_algebra_n64 = ob_set_algebra<64>);
+    ninst!(r_set_elem_n4 = ob_set_elem<4>);
+    ninst!(r_set_elem_n8 = ob_set_elem<8>);
+    ninst!(r_set_elem_n16 = ob_set_elem<16>);
+    ninst!(r_set_elem_n32 = ob_set_elem<32>);
+    ninst!(r_set_elem_n64 = ob_set_elem<64>);
+    ninst!(r_table_ops_n4 = ob_table_ops<4>);
+    ninst!(r_table_ops_n8 = ob_table_ops<8>);
+    ninst!(r_table_ops_n16 = ob_table_ops<16>);
+    ninst!(r_table_ops_n32 = ob_table_ops<32>);
+    ninst!(r_table_ops_n64 = ob_table_ops<64>);
+    ninst!(r_get_many_mut_n4 = ob_get_many_mut<4>);
+    ninst!(r_get_many_mut_n8 = ob_get_many_mut<8>);
+    ninst!(r_get_many_mut_n16 = ob_get_many_mut<16>);
+    ninst!(r_get_many_mut_n32 = ob_get_many_mut<32>);
+    ninst!(r_get_many_mut_n64 = ob_get_many_mut<64>);
+    ninst!(r_table_get_many_mut_n4 = ob_table_get_many_mut<4>);
+    ninst!(r_table_get_many_mut_n8 = ob_table_get_many_mut<8>);
+    ninst!(r_table_get_many_mut_n16 = ob_table_get_many_mut<16>);
+    ninst!(r_table_get_many_mut_n32 = ob_table_get_many_mut<32>);
+    ninst!(r_table_get_many_mut_n64 = ob_table_get_many_mut<64>);
+    ninst!(r_map_iter_n4 = ob_map_iter<4>);
+    ninst!(r_map_iter_n8 = ob_map_iter<8>);
+    ninst!(r_map_iter_n16 = ob_map_iter<16>);
+    ninst!(r_map_iter_n32 = ob_map_iter<32>);
+    ninst!(r_map_iter_n64 = ob_map_iter<64>);
+    ninst!(r_set_table_iter_n4 = ob_set_table_iter<4>);
+    ninst!(r_set_table_iter_n8 = ob_set_table_iter<8>);
+    ninst!(r_set_table_iter_n16 = ob_set_table_iter<16>);
+    ninst!(r_set_table_iter_n32 = ob_set_table_iter<32>);
+    ninst!(r_set_table_iter_n64 = ob_set_table_iter<64>);
+    ninst!(r_drain_extract_n4 = ob_drain_extract<4>);
+    ninst!(r_drain_extract_n8 = ob_drain_extract<8>);
+    ninst!(r_drain_extract_n16 = ob_drain_extract<16>);
+    ninst!(r_drain_extract_n32 = ob_drain_extract<32>);
+    ninst!(r_drain_extract_n64 = ob_drain_extract<64>);
     ninst!(r_map_lookup_n4 = ob_map_lookup<4>);
     ninst!(r_map_lookup_n8 = ob_map_lookup<8>);
     ninst!(r_map_lookup_n16 = ob_map_lookup<16>);
@@ -107,6 +195,94 @@ harnesses! {
     #[kani::unwind(18)] h_iter_n16,
     }
     native {
+        r_set_algebra_n4,
+        r_set_algebra_n8,
+        r_set_algebra_n16,
+        r_set_algebra_n32,
+        r_set_algebra_n64,
+        r_set_elem_n4,
+        r_set_elem_n8,
+        r_set_elem_n16,
+        r_set_elem_n32,
+        r_set_elem_n64,
+        r_table_ops_n4,
+        r_table_ops_n8,
+        r_table_ops_n16,
+        r_table_ops_n32,
+        r_table_ops_n64,
+        r_get_many_mut_n4,
+        r_get_many_mut_n8,
+        r_get_many_mut_n16,
+        r_get_many_mut_n32,
+        r_get_many_mut_n64,
+        r_table_get_many_mut_n4,
+        r_table_get_many_mut_n8,
+        r_table_get_many_mut_n16,
+        r_table_get_many_mut_n32,
+        r_table_get_many_mut_n64,
+        r_map_iter_n4,
+        r_map_iter_n8,
+        r_map_iter_n16,
+        r_map_iter_n32,
+        r_map_iter_n64,
+        r_set_table_iter_n4,
+        r_set_table_iter_n8,
+        r_set_table_iter_n16,
+        r_set_table_iter_n32,
+        r_set_table_iter_n64,
+        r_drain_extract_n4,
+        r_drain_extract_n8,
+        r_drain_extract_n16,
+        r_drain_extract_n32,
+        r_drain_extract_n64,
+        r_find_n4,
+        r_find_n8,
+        r_find_n16,
+        r_find_n32,
+        r_find_n64,
+        r_find_unlawful_n4,
+        r_find_unlawful_n8,
+        r_find_unlawful_n16,
+        r_find_unlawful_n32,
+        r_find_unlawful_n64,
+        r_find_insert_slot_n4,
+        r_find_insert_slot_n8,
+        r_find_insert_slot_n16,
+        r_find_insert_slot_n32,
+        r_find_insert_slot_n64,
+        r_find_or_insert_slot_n4,
+        r_find_or_insert_slot_n8,
+        r_find_or_insert_slot_n16,
+        r_find_or_insert_slot_n32,
+        r_find_or_insert_slot_n64,
+        r_insert_in_slot_n4,
+        r_insert_in_slot_n8,
+        r_insert_in_slot_n16,
+        r_insert_in_slot_n32,
+        r_insert_in_slot_n64,
+        r_remove_n4,
+        r_remove_n8,
+        r_remove_n16,
+        r_remove_n32,
+        r_remove_n64,
+        r_insert_n4,
+        r_insert_n8,
+        r_insert_n16,
+        r_insert_n32,
+        r_resize_n4,
+        r_resize_n8,
+        r_resize_n16,
+        r_resize_n32,
+        r_rehash_in_place_n4,
+        r_rehash_in_place_n8,
+        r_rehash_in_place_n16,
+        r_rehash_in_place_n32,
+        r_rehash_in_place_n64,
+        r_iter_n4,
+        r_iter_n8,
+        r_iter_n16,
+        r_iter_n32,
+        r_iter_n64,
         r_map_lookup_n4,
         r_map_lookup_n8,
         r_map_lookup_n16,
